@@ -245,6 +245,13 @@ func c12Gen(tier string, shard, nshards int, emit func(sc *world.Scenario) bool)
 		}
 	}
 	gen(nil)
+	// (f) well-formed requests with unusual content
+	for oi, req := range c12Odd() {
+		push(fmt.Sprintf("odd%d", oi), req, nil)
+		if len(req) < 600 {
+			push(fmt.Sprintf("odd%dx2", oi), append(append([]byte{}, req...), req...), []int{len(req) / 2})
+		}
+	}
 	// (b) single-position mutations and field replacements of valid requests; (c) every proper prefix
 	for ci, req := range c12Corpus() {
 		add := func(kind string, s []byte) {
@@ -290,6 +297,48 @@ func c12Gen(tier string, shard, nshards int, emit func(sc *world.Scenario) bool)
 	}
 }
 
+// c12Odd: well-formed requests with unusual content: awkward keys (empty, lone / reversed / nested braces, CR LF NUL and
+// high bytes, a key that looks like a request), missing and surplus arguments of every decoding branch, odd MSET pair
+// lists, EVAL key counts that are absent / zero / negative / not a number / larger than the argument list, command
+// names that are empty, very long or contain control bytes, argument counts around 256 and key lists of 1000 entries.
+// Each is a complete request: exactly one reply, no crash, witness undisturbed, nothing malformed at a node.
+func c12Odd() [][]byte {
+	var out [][]byte
+	keys := []string{"", "{", "}", "{}", "a}{b}", "}a{b}", "}{", "{a", "a}", "{{a}}", "{a}{b}", "}}{{", "\r\n", "a\r\nb", "\x00", "\xff\xfe{\x80}",
+		strings.Repeat("k", 300), "*1\r\n$4\r\nping\r\n", "{" + strings.Repeat("t", 70) + "}x"}
+	k2 := keysB[3]
+	for _, k := range keys {
+		out = append(out, world.Cmd("get", k), world.Cmd("set", k, "v"), world.Cmd("mget", k, k2), world.Cmd("del", k2, k), world.Cmd("mset", k, "v", k2, "w"),
+			world.Cmd("eval", "return 1", "1", k), world.Cmd("evalsha", "abc", "1", k, "arg"), world.Cmd("hset", k, "f", "v"), world.Cmd("mget", k), world.Cmd("del", k, k, k))
+	}
+	for _, name := range []string{"get", "set", "mget", "del", "mset", "eval", "evalsha", "ping", "quit", "auth", "hmset", "lrange", "zrangebyscore", "sort", "info", ""} {
+		out = append(out, world.Cmd(name))
+		out = append(out, world.Cmd(name, "a"))
+		out = append(out, world.Cmd(name, "a", "b", "c"))
+	}
+	out = append(out, world.Cmd("mset", "a", "1", "b"), world.Cmd("mset", "a", "1", "b", "2", "c"),
+		world.Cmd("eval", "s", "1"), world.Cmd("eval", "s", "0"), world.Cmd("eval", "s", "0", "k"), world.Cmd("eval", "s", "abc", "k"), world.Cmd("eval", "s", "-1", "k"),
+		world.Cmd("eval", "s", "99999999999999999999", "k"), world.Cmd("eval", "s", "5", "k"), world.Cmd("eval", "s", "2", keysA[0], keysC[0]), world.Cmd("evalsha", "x", "", "k"),
+		world.Cmd("GET\r\n", "a"), world.Cmd("ge\x00t", "a"), world.Cmd(strings.Repeat("g", 300), "a"), world.Cmd("g", "a"), world.Cmd("gEt", "a"), world.Cmd("g\xc3\xa9t", "a"))
+	many := func(name string, n int, pair bool) []byte {
+		args := []string{name}
+		for i := 0; i < n; i++ {
+			args = append(args, fmt.Sprintf("k%d", i))
+			if pair {
+				args = append(args, "v")
+			}
+		}
+		return world.Cmd(args...)
+	}
+	for _, n := range []int{15, 16, 17, 127, 128, 255, 256, 257, 258, 1000} {
+		out = append(out, many("get", n, false), many("ping", n, false), many("mget", n, false), many("del", n, false), many("hmset", n, false), many("eval", n, false))
+		if n <= 258 {
+			out = append(out, many("mset", n, true))
+		}
+	}
+	return out
+}
+
 // c12FromName rebuilds a scenario from "C12/<label>/<hex input>/cuts[..]".
 func c12FromName(name string) *world.Scenario {
 	parts := strings.Split(name, "/")
@@ -297,6 +346,19 @@ func c12FromName(name string) *world.Scenario {
 		return nil
 	}
 	in, err := hex.DecodeString(parts[2])
+	if strings.HasPrefix(parts[1], "odd") {
+		// long inputs: the name is truncated, the input is rebuilt from its index
+		var oi int
+		fmt.Sscanf(strings.TrimSuffix(strings.TrimPrefix(parts[1], "odd"), "x2"), "%d", &oi)
+		if odd := c12Odd(); oi < len(odd) {
+			in, err = odd[oi], nil
+			if strings.HasSuffix(parts[1], "x2") {
+				in = append(append([]byte{}, in...), in...)
+				return c12Scenario(parts[1], in, []int{len(in) / 4})
+			}
+			return c12Scenario(parts[1], in, nil)
+		}
+	}
 	if err != nil {
 		return nil
 	}
